@@ -164,7 +164,7 @@ def apply_op(sx, pool, i, kind, preset=None):
         new = pool[t].customize(**kw)
         pend = dict((f, dict(a)) for f, a in PENDING.get(id(pool[t]), {}).items())
         for f, a in kw.get('child_attrs', {}).items():
-            if f not in new._type_info:
+            if f not in new.get_flat_type_info(new):
                 pend.setdefault(f, {}).update(a)
         PENDING[id(new)] = pend
         pall = dict(PENDING_ALL.get(id(pool[t]), {}))
@@ -233,11 +233,11 @@ def apply_op(sx, pool, i, kind, preset=None):
             # the new field appears once, in declaration order: parents first
             chk.append(now.count(fname) == 1)
             chk.append([x for x in now if x != fname] == before[n])
-            if fname in m._type_info:
-                # the added field carries exactly what this variant asked for (child_attrs for a
-                # field that did not exist yet, child_attrs_all) and nothing another variant asked for
-                ft = m._type_info[fname]
-                want = dict(PENDING_ALL.get(id(m), {}))
+            ft = m.get_flat_type_info(m).get(fname)
+            if ft is not None:
+                # the added field - seen by a subclass variant through its parent - carries exactly what this variant asked
+                # for (child_attrs for a field that did not exist yet, child_attrs_all) and nothing another variant asked for
+                want = dict(PENDING_ALL.get(id(m), {}))       # child_attrs_all covers inherited fields as well
                 want.update(PENDING.get(id(m), {}).get(fname, {}))
                 chk.append(sx.eq(ft.Attributes.min_occurs, want.get('min_occurs', ftype.Attributes.min_occurs)))
                 if ftype is Unicode:
